@@ -1,3 +1,4 @@
+import subprocess
 from typing import Optional
 from conductor.utils.output_handler import OutputHandler
 
@@ -12,6 +13,10 @@ class OperationExecutionHandle:
         pid: Optional[int],
     ):
         self.pid: Optional[int] = pid
+        # The `Popen` object must stay alive while the process runs. Otherwise
+        # CPython polls (and may reap) the child itself via `Popen.__del__()`
+        # and `subprocess._cleanup()`, and our SIGCHLD handler never sees the exit.
+        self.process: Optional[subprocess.Popen] = None
         self.stdout: Optional[OutputHandler] = None
         self.stderr: Optional[OutputHandler] = None
         self.returncode: Optional[int] = None
